@@ -65,9 +65,7 @@ func (te *Extractor) Extract(reader io.Reader) error {
 	te.deferredUpdates = make([]deferredUpdate, 0, 80)
 	doUpdates := func() error {
 		for i := len(te.deferredUpdates) - 1; i >= 0; i-- {
-			m := te.deferredUpdates[i]
-			err := files.UpdateMetaUnix(m.path, uint32(m.mode), m.mtime)
-			if err != nil {
+			if err := applyDeferredUpdate(te.deferredUpdates[i]); err != nil {
 				return err
 			}
 		}
@@ -406,6 +404,21 @@ type deferredUpdate struct {
 	mtime time.Time
 }
 
+// applyDeferredUpdate sets the mode and modification time recorded for an
+// extracted directory. A later entry may have replaced the (then empty)
+// directory with a file or a symlink; os.Chmod would follow such a symlink out
+// of the extraction root, so anything that is no longer a directory is skipped.
+func applyDeferredUpdate(m deferredUpdate) error {
+	fi, err := os.Lstat(m.path)
+	if err != nil {
+		return err
+	}
+	if !fi.IsDir() {
+		return nil
+	}
+	return files.UpdateMetaUnix(m.path, uint32(m.mode), m.mtime)
+}
+
 func (te *Extractor) deferUpdate(path string, header *tar.Header) error {
 	if header.Mode == 0 && header.ModTime.IsZero() {
 		return nil
@@ -425,8 +438,7 @@ func (te *Extractor) deferUpdate(path string, header *tar.Header) error {
 		// if possible, apply the previous deferral.
 		m := te.deferredUpdates[n-1]
 		if strings.HasPrefix(m.path, prefix()) {
-			err := files.UpdateMetaUnix(m.path, uint32(m.mode), m.mtime)
-			if err != nil {
+			if err := applyDeferredUpdate(m); err != nil {
 				return err
 			}
 			te.deferredUpdates = te.deferredUpdates[:n-1]
